@@ -313,19 +313,29 @@ def run(prog, rep, tier):
 
 
 class GrayResult:
-    """exit hook of gray2alt: remember, as a tag of the state, the term of the value it returned (states that carry
-    different tags are never merged, so the caller's return states still know which value they were computed from)"""
+    """exit hook of gray2alt: the value it returns is given a fresh atom as its term and that atom is remembered as a tag of
+    the state (states with different tags are never merged), so the caller's return states know which value they were
+    computed from - whatever the body of gray2alt and of decode_id13 look like"""
+
+    def __init__(self):
+        self.n = 0
 
     def exit(self, E_, nf, rets):
-        for st, v in rets:
+        for i, (st, v) in enumerate(rets):
             v = st.resolve(E_.expand(v))
             if v == A.BOT or v[0] != 'E':
                 continue
-            vs = dict(v[2])
-            if 0 in vs and vs[0]:
-                x = E_.scalar(st, vs[0][0])
-                if x[0] == 'I' and x[4] is not None:
-                    st.tags = frozenset(set(st.tags) | {('G', x[4])})
+            out = []
+            for vi, fs in v[2]:
+                if vi == 0 and fs:
+                    x = E_.scalar(st, fs[0])
+                    if x[0] == 'I':
+                        self.n += 1
+                        atom = A.T('o', ('gray2alt', self.n))
+                        fs = (E_.reg(mk_int(x[1], x[2], 0, atom)),) + tuple(fs[1:])
+                        st.tags = frozenset(set(st.tags) | {('G', atom)})
+                out.append((vi, fs))
+            rets[i] = (st, ('E', v[1], tuple(out)))
 
 
 def _lin(t):
